@@ -154,7 +154,7 @@ harness!(name=c06_predict_bernoulli, prop=C06, mode=R, kind=normal, tier=quick, 
 // ---- ridge-penalised Gaussian fit = ridge least squares (compositional: `solve` replaced by its contract A x = b)
 // @bound c06_ridge_: Gaussian family, the 3 x 2 design with rows (1,-1), (1,0), (1,1), unit weights, symbolic responses in +-100 and penalty strength alpha in [0.01, 10]; at most MAXIT scoring iterations (instance); the linear solver inside fit is replaced by its contract (what C01 decides about it): the claim is "fit is right if solve is"
 // @claim c06_ridge_: whenever fit reports success the coefficients are the ridge least-squares solution with the configured strength and an unpenalised intercept: beta0 = mean(y), beta1 = (y3 - y1) / (2 + alpha), to 1e-4 relative (R)
-// @cap c06_ridge_: 150
+// @cap c06_ridge_: 300
 fn ridge_gaussian(maxit: usize) {
     let y = [rng(0, -1.0e2, 1.0e2), rng(1, -1.0e2, 1.0e2), rng(2, -1.0e2, 1.0e2)];
     let alpha = rng(3, 0.01, 10.0);
